@@ -1,1 +1,145 @@
-/- C02 — property theorems (stub: the slice is not built yet). -/
+import GB.C02.Progress
+import GB.C02.Stable
+/-
+  C02 — every bridged call terminates promptly and releases its resources.
+
+  Same LTS as C01 (GB/C01/Forward.lean). Faults are already in it: any pending call may return an error
+  or EOF at any time and `ctxDone` may fire anywhere. `unilateral p s l` marks the steps Forward takes
+  without cooperation of client or target: its own calls and internal steps and — once the context is
+  done — the return of a blocked call of a ctx-AWARE adapter (`p.incAware` / `p.outAware`).
+  `terminating s` = ctx cancelled ∨ the o2i pump delivered its result ∨ a non-EOF error was delivered by
+  the i2o pump ∨ main is already on its way out.
+-/
+set_option linter.unusedSectionVars false
+set_option linter.unusedVariables false
+open GB.Fwd GB.LTS
+
+variable {M E : Type} [DecidableEq M] [DecidableEq E]
+
+/-- Progress: from every reachable state in which termination was triggered and Forward has not
+    returned, a step exists that needs nobody's cooperation and strictly decreases `rank` — provided the
+    blocked calls of both adapters observe the context. -/
+theorem C02_progress (e0 : E) (p : Params) (s : State M E) (hr : Reachable p s)
+    (ht : terminating s = true) (hd : isDone s = false) (hi : p.incAware = true) (ho : p.outAware = true) :
+    ∃ l s', forced e0 p s = some l ∧ step p s l = some s' ∧ unilateral p s l = true ∧ rank s' < rank s :=
+  progress e0 p s (sinv_reach p s hr) ht hd hi ho
+
+/-- The rank is bounded by a constant: at most 19 own steps remain. -/
+theorem C02_rank_bound (s : State M E) : rank s ≤ 19 := rank_le s
+
+/-- Termination, once triggered, cannot be un-triggered by any step of anybody. -/
+theorem C02_terminating_stable (p : Params) (s s' : State M E) (l : Label M E) (hr : Reachable p s)
+    (ht : terminating s = true) (hs : step p s l = some s') : terminating s' = true :=
+  terminating_stable p s s' l (sinv_reach p s hr) ht hs
+
+/-- Bounded termination: from every reachable terminating state Forward reaches its return by a
+    sequence of at most `rank s` (≤ 19) of its own steps, none of which needs the client or the target. -/
+theorem C02_returns_within_rank (e0 : E) (p : Params) (hi : p.incAware = true) (ho : p.outAware = true) :
+    ∀ (n : Nat) (s : State M E), Reachable p s → terminating s = true → rank s ≤ n →
+      ∃ ls s', GB.LTS.run (step p) s ls = some s' ∧ isDone s' = true ∧ ls.length ≤ n := by
+  intro n
+  induction n with
+  | zero =>
+    intro s hr ht hn
+    cases hd : isDone s with
+    | true => exact ⟨[], s, rfl, hd, Nat.le_refl _⟩
+    | false =>
+      obtain ⟨l, s', _, _, _, hlt⟩ := C02_progress e0 p s hr ht hd hi ho
+      omega
+  | succ n ih =>
+    intro s hr ht hn
+    cases hd : isDone s with
+    | true => exact ⟨[], s, rfl, hd, Nat.zero_le _⟩
+    | false =>
+      obtain ⟨l, s', _, hs, _, hlt⟩ := C02_progress e0 p s hr ht hd hi ho
+      obtain ⟨ls, s2, hrun, hdone, hlen⟩ :=
+        ih s' (Reachable.step hr hs) (C02_terminating_stable p s s' l hr ht hs) (by omega)
+      refine ⟨l :: ls, s2, ?_, hdone, ?_⟩
+      · simp [GB.LTS.run, hs, hrun]
+      · simp; omega
+
+/-- "A client idle on an open stream learns of the target's termination without having to send or close
+    anything": the target's result has been delivered, the request pump is parked in Incoming.Recv and
+    the client stays silent — Forward still returns on its own (ctx-aware incoming adapter). -/
+theorem C02_idle_client (e0 : E) (p : Params) (s : State M E) (hr : Reachable p s)
+    (hres : s.o2iCh.isSome = true) (hpark : s.i2o = .recvPending)
+    (hi : p.incAware = true) (ho : p.outAware = true) :
+    ∃ ls s', GB.LTS.run (step p) s ls = some s' ∧ isDone s' = true ∧ ls.length ≤ 19 := by
+  have ht : terminating s = true := by simp [terminating, hres]
+  exact C02_returns_within_rank e0 p hi ho 19 s hr ht (C02_rank_bound s)
+
+/-- Cleanup at return: the outgoing stream is not left open (it was closed, or never created), both
+    pumps have exited (or were never started), and the forwarding context is cancelled. -/
+theorem C02_cleanup (p : Params) (s : State M E) (hr : Reachable p s) (hd : isDone s = true) :
+    s.out ≠ .opened ∧ pumpsGone s = true ∧ s.ctx.isSome = true := by
+  have S := sinv_reach p s hr
+  unfold isDone at hd
+  cases hm : s.main <;> simp [hm] at hd
+  refine ⟨S.out_closed (by simp [hm]), S.done_gone (by simp [hm]), S.canc (by simp [hm])⟩
+
+/-- While a pump is still running, Forward has not returned (wg.Wait). -/
+theorem C02_no_return_before_pumps (p : Params) (s : State M E) (hr : Reachable p s)
+    (h : pumpsGone s = false) : isDone s = false := by
+  cases hd : isDone s with
+  | false => rfl
+  | true => have := (C02_cleanup p s hr hd).2.1; rw [h] at this; cases this
+
+/-- C12 enforcement on the whole call (instance of bounded termination): once the deadline (or any
+    cancellation) has fired, Forward returns within ≤ 19 of its own steps wherever in the call it strikes —
+    before stream creation, while waiting for the target, mid-stream, both sides idle. -/
+theorem C02_deadline_enforced (e0 : E) (p : Params) (s : State M E) (hr : Reachable p s) (w : Why)
+    (hc : s.ctx = some w) (hi : p.incAware = true) (ho : p.outAware = true) :
+    ∃ ls s', GB.LTS.run (step p) s ls = some s' ∧ isDone s' = true ∧ ls.length ≤ 19 := by
+  have ht : terminating s = true := by simp [terminating, hc]
+  exact C02_returns_within_rank e0 p hi ho 19 s hr ht (C02_rank_bound s)
+
+/-- C18(a) single owner: no stream operation ever has two goroutines of Forward inside it. Incoming.Recv and
+    outgoing.Send are called by main only in forwardUnaryRequest, when the request pump does not exist;
+    outgoing.CloseSend is called only when the request pump does not exist or has exited (so never
+    concurrently with outgoing.Send). Incoming.Send/SetHeader/SetTrailer and outgoing.Recv/Header/Trailer are
+    only ever called by the response pump (by construction of `stepCore`). Hence the
+    `sendActive/recvActive` guards of the stream adapters cannot fire from Forward. -/
+theorem C02_single_owner (p : Params) (s : State M E) (hr : Reachable p s) :
+    (s.main = .uRecvPending → s.i2o = .absent) ∧ (s.main = .uSendPending → s.i2o = .absent) ∧
+    (s.main = .uCloseSend → s.i2o = .absent) ∧ (s.main = .loopCloseSend → s.i2o = .exited) := by
+  have S := sinv_reach p s hr
+  refine ⟨fun h => S.pre_i (by simp [h]), fun h => S.pre_i (by simp [h]), fun h => S.pre_i (by simp [h]), S.lcs⟩
+
+/-! ### D1: a ctx-IGNORING incoming adapter deadlocks (negative witness, kernel-checked)
+
+  Bidirectional call, the target ends it (EOF) while the client is silent: the request pump stays
+  parked in Incoming.Recv, the main goroutine runs Close, cancel and then blocks in wg.Wait forever.
+  This is exactly proxy.go's `grpcServerStream.Recv/Send` before the fix (they ignored ctx). -/
+
+def C02_d1 : Params := { cs := true, ss := true, incAware := false, outAware := true }
+
+def C02_d1_trace : List (Label Nat Nat) :=
+  [.outStreamCall, .outStreamRet .ok, .incRecvCall, .outRecvCall, .outRecvRet .eof, .outHeader, .incSetHeader,
+   .outTrailer, .incSetTrailer, .tauSelO2I, .outClose, .tauCancel]
+
+theorem C02_nonaware_hangs :
+    ∃ s : State Nat Nat, Reachable C02_d1 s ∧ terminating s = true ∧ isDone s = false ∧
+      s.i2o = .recvPending ∧ s.main = .deferWait none ∧
+      ∀ l, unilateral C02_d1 s l = true → step C02_d1 s l = none := by
+  have hrun : (GB.LTS.run (step C02_d1) (init Nat Nat) C02_d1_trace).isSome = true := by decide
+  cases h : GB.LTS.run (step C02_d1) (init Nat Nat) C02_d1_trace with
+  | none => rw [h] at hrun; cases hrun
+  | some s =>
+    have hm : (GB.LTS.run (step C02_d1) (init Nat Nat) C02_d1_trace).map
+        (fun s => (s.main, s.i2o, s.o2i, s.ctx)) = some (.deferWait none, .recvPending, .exited, some .canceled) := by
+      decide
+    rw [h] at hm
+    simp only [Option.map_some, Option.some.injEq, Prod.mk.injEq] at hm
+    obtain ⟨m1, m2, m3, m4⟩ := hm
+    refine ⟨s, run_reachable _ _ _ _ Reachable.init h, ?_, ?_, m2, m1, ?_⟩
+    · simp [terminating, m4]
+    · simp [isDone, m1]
+    · intro l hl
+      cases l <;> simp_all [unilateral, step, stepCore, C02_d1, pumpsGone] <;>
+        (try (rename_i r; cases r <;> simp_all [unilateral]))
+
+/-- …whereas with a ctx-aware adapter the very same schedule goes on to the return (the fixed proxy). -/
+theorem C02_aware_returns :
+    (GB.LTS.run (step { cs := true, ss := true, incAware := true, outAware := true }) (init Nat Nat)
+      (C02_d1_trace ++ [.incRecvRet (.err 1), .ret none])).map isDone = some true := by
+  decide
